@@ -820,6 +820,12 @@ def _model_side(ctx: Any, W: Any, cases: list[dict[str, Any]], results: list[tup
 
     wrong = [c for c in cases for k, t in (("cur_sym", "cur"), ("call_sym", "call")) if c.get(k) is not None and apply_sym(c[k]) != c[t]]
     ctx.obligation("harness:symbolic-mutations-are-the-presented-texts", "harness", not wrong, f"{len(wrong)} cases")
+    # quick tier: the implementation and the oracle see every bit flip; the (much slower) model is evaluated on the
+    # flips of every 4th text position (all 8 bits) and on every case of all other classes
+    if ctx.tier == "quick":
+        keep = [n for n, c in enumerate(cases) if not (c["cls"].startswith("flip-text") and (c.get("cur_sym") or c.get("call_sym"))[2] % 4 != 0)]
+        cases = [cases[n] for n in keep]
+        results = [results[n] for n in keep]
     mcases = []
     for c, (status, code, hooks) in zip(cases, results):
         key, ttl, warm = W.app_cfg[c["app"]]
